@@ -1,6 +1,7 @@
 package main
 
 import (
+	"sort"
 	"fmt"
 	"go/ast"
 	"go/token"
@@ -988,6 +989,9 @@ func (g *gen) checkCallGuards(st *State, callee string, lbl string, args []*Val)
 		if !cg.Pattern.MatchString(callee) {
 			continue
 		}
+		if cg.Ordinal > 0 && g.callOrdinal(callee) != cg.Ordinal {
+			continue
+		}
 		env := g.specEnv(st, g.entry)
 		g.bindLocals(env)
 		g.guardArgs = args
@@ -1170,4 +1174,50 @@ func (g *gen) checkCalleeFrame(st *State, env *SpecEnv, con *Contract, lbl strin
 		et := a.V.T.Underlying().(*types.Pointer).Elem()
 		g.checkFrame(st, a.V, et, pos)
 	}
+}
+
+// callOrdinal: position (1-based, source order) of the current call among the
+// call sites of the same callee name in this function.
+func (g *gen) callOrdinal(callee string) int {
+	if g.curInstr == nil {
+		return 0
+	}
+	if g.callSites == nil {
+		g.callSites = map[string][]token.Pos{}
+		for _, b := range g.fn.Blocks {
+			for _, ins := range b.Instrs {
+				var cc *ssa.CallCommon
+				switch x := ins.(type) {
+				case *ssa.Call:
+					cc = &x.Call
+				case *ssa.Defer:
+					cc = &x.Call
+				case *ssa.Go:
+					cc = &x.Call
+				}
+				if cc == nil {
+					continue
+				}
+				name := ""
+				if cc.IsInvoke() {
+					name = cc.Method.Name()
+				} else if f, ok := cc.Value.(*ssa.Function); ok {
+					name = f.Name()
+				}
+				if name != "" {
+					g.callSites[name] = append(g.callSites[name], ins.Pos())
+				}
+			}
+		}
+		for k := range g.callSites {
+			ps := g.callSites[k]
+			sort.Slice(ps, func(i, j int) bool { return ps[i] < ps[j] })
+		}
+	}
+	for i, p := range g.callSites[callee] {
+		if p == g.curInstr.Pos() {
+			return i + 1
+		}
+	}
+	return 0
 }
